@@ -198,6 +198,23 @@ def bundle(ctx, tag):
         if isinstance(root["properties"], dict):
             root["properties"]["nest"] = {idk: "a/", "properties": {"deep": {idk: "b/", "properties": {"leaf": {"$ref": "leaf.json"}}}}}
         info["kinds"].append("nested-relative-ids")
+    # the SAME relative reference string under two different bases, both resolvable, designating different
+    # things: a cache keyed by the string alone (or by the first base) confuses them, in either order
+    if base.startswith("http") and r.random() < 0.4 and isinstance(root, dict):
+        ua, ub = urljoin(base, "ta/") + "item.json", urljoin(base, "tb/") + "item.json"
+        ka, kb = r.sample(gen.SIMPLE_TYPES, 2)
+        docs_target = store if r.random() < 0.6 else world
+        docs_target[ua] = {"type": ka}
+        docs_target[ub] = {"type": kb}
+        root.setdefault("properties", {})
+        if isinstance(root["properties"], dict):
+            two = [("twoA", {idk: "ta/", "items": {"$ref": "item.json"}}), ("twoB", {idk: "tb/", "items": {"$ref": "item.json"}})]
+            r.shuffle(two)
+            items = list(root["properties"].items())
+            for kv in two:
+                items.insert(r.randrange(len(items) + 1), kv)
+            root["properties"] = dict(items)
+            info["kinds"].append("same-relative-ref-two-bases")
     return root, store, world, info, base
 
 
